@@ -504,6 +504,8 @@ def e2e_queries():
             return out
         return ref
     return [("name from R0 where modified = 2021-12-31", where([('=', '2021-12-31')]), False),
+            # every entry's time as printed (a year boundary: 2022-01-01 is a Saturday of ISO week 52 of 2021)
+            ("name, modified from R0", lambda v, k: [[N[i], MT[i]] for i in v], False),
             ("name, modified from R0 where modified >= '2021-12-31 23' and modified <= '2021-12-31 23:59'",
              where([('>=', '2021-12-31 23'), ('<=', '2021-12-31 23:59')], [name, lambda i: MT[i]]), False),
             ("name from R0 where modified != '2021:12:31'", where([('!=', '2021-12-31')]), False),
@@ -523,7 +525,7 @@ def fam_e2e(sess):
     from drivers import e2e
     qs = e2e_queries()
     if sess.tier == 'quick':
-        qs = qs[:4]
+        qs = qs[:5]
     e2e.family(sess, 'e2e', qs, extra=concrete_chrono())
 
 
